@@ -1,5 +1,5 @@
 (* C10 - reconnects carry the last received event ID and a fresh request body.
-   Statements only; proofs in theories/ConnectProofs.v, ConnectStep.v, ConnectTop.v, ConnectBody.v.
+   Statements only; proofs in theories/ConnectProofs.v, ConnectStep.v, ConnectTop.v, ConnectBody.v, ConnectAgain.v.
    [connect_run cfg script] is the model of Connection.Connect (Connect.v, after
    client_connection.go:128-277): its trace lists every request the RoundTripper sees (Last-Event-ID
    header, which generation of the body), every dispatched event and every OnRetry call.  The script
@@ -9,7 +9,7 @@
    What a Connection does with a body is the byte-level SPECIFICATION [Whatwg.interp gosse_conn]
    (property C01 ties the real parser to it); [id_after], [header_of] are written from the property
    text. *)
-From GoSse Require Import Base Whatwg Backoff Connect ConnectProofs ConnectStep ConnectTop ConnectFacts ConnectBody.
+From GoSse Require Import Base Whatwg Backoff Connect ConnectProofs ConnectStep ConnectTop ConnectFacts ConnectBody ConnectAgain.
 From GoSse.Gen Require Import Params.
 
 (* The Last-Event-ID header of attempt k+2 (any k: at least one attempt precedes it) is
@@ -75,6 +75,74 @@ Theorem C10_body :
   end.
 Proof. exact run_bodies. Qed.
 
+(* ---- the same Connection connected again --------------------------------------------------------
+   Connect may return for a reason other than the context (retries exhausted, MaxRetries < 0, a validator
+   or body-reset error) and be CALLED AGAIN on the same *Connection.  [connect_runs cfg scripts] (Connect.v)
+   is that: one script per call, each call from the Connection as the previous call left it (lastEventID,
+   isRetry, the request's header and body - [connect_loop_st] returns it) with a backoff controller of its
+   own; a further call is made while the last one returned something else than the context's error.
+   [all_requests] lists the requests of all calls in order, [attempts_made] the script steps they answer. *)
+
+(* one script: the run is the single-call model of the theorems above *)
+Theorem C10_again_single :
+  forall cfg script, connect_runs cfg [script] = [connect_run cfg script].
+Proof. exact runs_single. Qed.
+
+(* Request number k+2 counted over ALL calls - in particular the FIRST request of a later call - carries
+   header_of (the ID after the k+1 attempts made before it, whichever call made them) *)
+Theorem C10_again_header :
+  forall cfg scripts k h bd,
+  cc_cancel_before cfg = false ->
+  let outs := connect_runs cfg scripts in
+  nth_error (all_requests outs) (S k) = Some (h, bd) ->
+  h = header_of (id_after [] (firstn (S k) (attempts_made scripts outs))).
+Proof. exact runs_header_nth. Qed.
+
+(* the headers of all calls are exactly those specified for ONE call over the attempts made *)
+Theorem C10_again_headers :
+  forall cfg scripts,
+  cc_cancel_before cfg = false ->
+  let outs := connect_runs cfg scripts in
+  map fst (all_requests outs) = spec_headers_run cfg (attempts_made scripts outs).
+Proof. exact runs_headers. Qed.
+
+(* Request number j (from 0, over ALL calls) carries the j-th GetBody result: a consumed body is never
+   sent again, not by the first request of a later call either; requests without a body never get one
+   and never fail on it; with a body but no GetBody there is one request in all and every body-reset
+   error is ErrNoGetBody; a GetBody that fails after [after] calls allows [after]+1 requests in all and
+   every body-reset error is GetBody's own. *)
+Theorem C10_again_body :
+  forall cfg scripts,
+  let outs := connect_runs cfg scripts in
+  match cc_body cfg with
+  | BNone | BNoBody =>
+      map snd (all_requests outs) = repeat None (length (all_requests outs)) /\ reset_results outs = []
+  | BBody g =>
+      map snd (all_requests outs) = map Some (seq 0 (length (all_requests outs))) /\
+      match g with
+      | GBOk => reset_results outs = []
+      | GBNone => (length (all_requests outs) <= 1)%nat /\ forall e, In e (reset_results outs) -> e = CNoGetBody
+      | GBFails after e0 =>
+          (length (all_requests outs) <= S after)%nat /\ forall e, In e (reset_results outs) -> e = CE (EReader e0)
+      end
+  end.
+Proof. exact runs_bodies. Qed.
+
+(* a later call on a Connection whose body has no GetBody: ErrNoGetBody at once, nothing is requested *)
+Theorem C10_again_no_getbody :
+  forall cfg b s script,
+  cc_body cfg = BBody GBNone -> cs_is_retry s = true ->
+  connect_loop cfg b (call_state b s) script = ([], Some (RConn RsReset CNoGetBody)).
+Proof. exact again_no_getbody. Qed.
+
+(* every call after the first is one Connect call on a Connection with isRetry set, whose controller is new *)
+Theorem C10_again_call :
+  forall cfg scripts k tr r,
+  nth_error (connect_runs cfg scripts) (S k) = Some (tr, r) ->
+  exists sk sc, nth_error scripts (S k) = Some sc /\ cs_is_retry sk = true /\
+                connect_loop cfg (merge_defaults (cc_backoff cfg)) (call_state (merge_defaults (cc_backoff cfg)) sk) sc = (tr, r).
+Proof. exact runs_nth. Qed.
+
 (* ---- non-vacuity: a concrete run -------------------------------------------------------------- *)
 Definition b_ (s : list N) : bytes := s.
 (* "id: 1\n\n" ; failure ; "id\n\n" (empty id: resets) ; "id: a<NUL>b\n\ndata: x\n\n" (NUL id ignored, event
@@ -105,6 +173,24 @@ Example C10_example_no_getbody :
   connect_run (mkccfg (mkbackoff 1000 (mkrat 1 1) (mkrat (-1) 1) 0 0 0) (BBody GBNone) false None false None) ex_script =
   ([TRequest None (Some 0%nat); TEvent (mkev [49%N] [] [])], Some (RConn RsReset CNoGetBody)).
 Proof. vm_compute. reflexivity. Qed.
+
+(* MaxRetries -1: every Connect call makes one attempt.  Three calls on one Connection: "id: 1", "id: 9", a failure -
+   the first request of the second call carries Last-Event-ID 1 and the first GetBody result, that of the third call
+   Last-Event-ID 9 and the second; with a body but no GetBody the second call returns ErrNoGetBody without a request *)
+Definition ex_ccfg_once (k : body_kind) : ccfg :=
+  mkccfg (mkbackoff 1000 (mkrat 1 1) (mkrat (-1) 1) 0 0 (-1)) k false None false None.
+Definition ex_scripts : list (list step) :=
+  [[ex_step (AStream ex_id1 CleanEOF)]; [ex_step (AStream ex_id9 CleanEOF)]; [ex_step (ATransportErr 5)]].
+
+Example C10_example_again :
+  all_requests (connect_runs (ex_ccfg_once (BBody GBOk)) ex_scripts) =
+  [(None, Some 0%nat); (Some [49%N], Some 1%nat); (Some [57%N], Some 2%nat)] /\
+  map snd (connect_runs (ex_ccfg_once (BBody GBOk)) ex_scripts) =
+  [Some (RConn RsLost (CE EEOF)); Some (RConn RsLost (CE EEOF)); Some (RConn RsConnect (CE (EReader 5)))] /\
+  connect_runs (ex_ccfg_once (BBody GBNone)) ex_scripts =
+  [([TRequest None (Some 0%nat); TEvent (mkev [49%N] [] [])], Some (RConn RsLost (CE EEOF)));
+   ([], Some (RConn RsReset CNoGetBody)); ([], Some (RConn RsReset CNoGetBody))].
+Proof. vm_compute. repeat split; reflexivity. Qed.
 
 (* the header name the model's trace speaks about is the one the code sets *)
 Example C10_header_name :
